@@ -45,6 +45,14 @@ def slot_of(cls):
     return None, None, None
 
 
+def _enclosing_handlers(node):
+    h = node
+    while h is not None:
+        if isinstance(h, ast.ExceptHandler):
+            yield h
+        h = getattr(h, "_parent", None)
+
+
 def is_slot(e, fn, slot):
     return isinstance(e, ast.Attribute) and e.attr == slot and isinstance(e.value, ast.Name) and e.value.id == fn.self_name
 
@@ -464,6 +472,39 @@ def check(ctx):
                     return False
                 if nones and others_ok and all(in_oserror_handler(c) for c in nones):
                     okh = True
+        # ... and "reading failed" has to mean "there is no such file": a key file that exists but cannot be read (permissions, an
+        # I/O error) raises OSError as well, and generating then overwrites it.  Either the handler catches FileNotFoundError only,
+        # or the generator call is guarded by a test that the path does not exist
+        if okh:
+            from engine.flow import guard_atoms
+            missing = False
+            if handler is not None:
+                names_ = an.handler_types(cf, handler) or []
+                if names_ and all(nm == "FileNotFoundError" for nm in names_):
+                    missing = True
+            def absent_at(node_):
+                return any(isinstance(e_, ast.Call) and isinstance(e_.func, ast.Attribute) and e_.func.attr in ("exists", "isfile", "lexists", "is_file")
+                           and truth_ is False for e_, truth_, _t in guard_atoms(an, cf, node_))
+            if absent_at(cn):
+                missing = True
+            if not missing and handler is None:
+                # behind `if content is None:`: every place that makes content None sits behind the "does not exist" test
+                gcf = an.cfg(cf)
+                none_nodes = []
+                for t, tr in dominating_guards(an, cf, cn):
+                    a = none_test(t.ast, True, strict=True) if tr else none_test(t.ast, False, strict=True)
+                    if isinstance(a, ast.Name):
+                        for k, pl in value_sources(cf, a, t):
+                            if k == "expr" and isinstance(pl, ast.Constant) and pl.value is None:
+                                none_nodes += [m for m in gcf.nodes if m.kind == "assign" and getattr(m.ast, "value", None) is pl]
+                if none_nodes and all(absent_at(m) or all(nm == "FileNotFoundError" for nm in (an.handler_types(cf, hh) or ["?"]))
+                                      for m in none_nodes for hh in [next((h2 for h2 in _enclosing_handlers(m.ast)), None)] if hh is not None or absent_at(m)):
+                    missing = all(absent_at(m) or any(True for _ in _enclosing_handlers(m.ast) if all(nm == "FileNotFoundError" for nm in (an.handler_types(cf, _) or ["?"])))
+                                  for m in none_nodes)
+            ctx.ob("generator.only-when-missing", cf, cn.ast, missing,
+                   "a key is generated only when the key file does not exist" if missing else
+                   "a key is generated whenever opening the key file fails with any OSError: an existing 32-byte key file that cannot be read "
+                   "(permissions, I/O error) is overwritten with a new random key", node=cn)
         ctx.ob("generator.callers", cf, cn.ast, okh,
                "a key is generated only when reading the key file failed with OSError (file missing)" if okh else
                "a new key can be generated (overwriting the key file) although the existing file was readable", node=cn)
